@@ -188,6 +188,34 @@ def _validate_pair(name, tv, tvalidate):
     return runs, skipped, bad
 
 
+def run_eq(res):
+    """unit obligation on <IrValue as PartialEq>::eq (tv/irvalue_eq.py), from the same MIR dump as run_m"""
+    tv_engine.build()
+    import tv, mir as M, irvalue_eq
+    mir_path = os.path.join(MIRDIR, "roto.mir")
+    if not os.path.exists(mir_path) or not _state.get("dump_s"):
+        mir_path = dump_mir()
+    try:
+        mirobj = M.Mir(open(mir_path).read(), REPO)
+        rows, queries, secs = irvalue_eq.check(mirobj, tv.EXTRACT, os.path.join(BUILD, "irvalue_eq"))
+    except M.Unsupported as e:
+        res.inconclusive.append(f"engine M (IrValue::eq): {e}")
+        return
+    for r in rows:
+        if r["status"] == "violation":
+            res.violation(r["detail"], {"engine": "irvalue-eq", "left": r["left"], "right": r["right"], "replay": r["replay"], "counterexample": r["counterexample"]})
+        elif r["status"] == "inconclusive":
+            res.inconclusive.append(f"engine M (IrValue::eq): {r['why'][:300]}")
+    res.cov["irvalue_eq"] = {
+        "functions_encoded": ["<IrValue as PartialEq>::eq (MIR body), every ordered pair of the 14 variants, payloads symbolic"],
+        "pairs": len(rows), "stop_loudly": sum(1 for r in rows if r.get("outcome") == "stops loudly"),
+        "complete_and_equal_payload_equality": sum(1 for r in rows if r["status"] == "ok" and r.get("outcome") == "completes"),
+        "complete_not_judged": sum(1 for r in rows if str(r.get("outcome", "")).startswith("completes (")),
+        "solver_queries": queries, "wall_s": round(secs, 2),
+    }
+    res.cov["evaluations"] = res.cov.get("evaluations", 0) + len(rows)
+
+
 def run_b(res):
     """Engine B (tv/builtins.py): the float built-ins of the default runtime, from the MIR dump, against their IEEE-754 meaning."""
     tv_engine.build()
@@ -200,6 +228,12 @@ def run_b(res):
             res.violation(r["detail"], {"engine": "builtins", "type": r["type"], "name": r["name"], "replay": r["replay"], "counterexample": r["counterexample"]})
         elif r["status"] == "inconclusive":
             res.inconclusive.append(f"engine B: {r['type']}.{r['name']}: {r['why'][:200]}")
+    drows = builtins_b.check_delegations(open(mir_path).read(), REPO, tv.EXTRACT, os.path.join(BUILD, "builtins"))
+    for r in drows:
+        if r["status"] == "violation":
+            res.violation(r["detail"], {"engine": "builtins", "type": r["type"], "name": r["name"], "replay": r["replay"], "probes_failed": r["probes_failed"]})
+        elif r["status"] == "inconclusive":
+            res.inconclusive.append(f"engine B: {r['type']}.{r['name']}: {r['why'][:240]}")
     expected = {(t, n) for t in ("f32", "f64") for n in ("floor", "ceil", "round", "abs", "sqrt", "pow", "is_nan", "is_infinite", "is_finite")}
     missing = expected - {(r["type"], r["name"]) for r in rows}
     if missing:
@@ -212,6 +246,10 @@ def run_b(res):
         "mir_dump_s": _state.get("dump_s"),
         "bounds": "none on the arguments (every f32/f64 bit pattern; all NaNs one value); powf uninterpreted (argument order only)",
         "bodies": {f"{r['type']}.{r['name']}": r.get("body", "") for r in decided},
+        "delegations": {"decided": [f"{r['type']}.{r['name']}" for r in drows if r["status"] == "ok"],
+                        "what": "IpAddr / Prefix methods: the MIR body of the registered wrapper equals the uninterpreted function of the std / inetnum "
+                                "operation it documents, applied to its parameters in order (uninterpreted sorts for the operands); a mismatch is confirmed "
+                                "on concrete probes against the real JIT before it is reported"},
     }
-    res.cov["evaluations"] = res.cov.get("evaluations", 0) + len(decided)
+    res.cov["evaluations"] = res.cov.get("evaluations", 0) + len(decided) + sum(1 for r in drows if r["status"] == "ok")
     return rows
